@@ -7,7 +7,12 @@ LEVEL_TEXT = ("G-obligations: the real Ed25519 drivers (keypair.c, sign.c, open.
 TRUSTED = ["CBMC 6.11 + uninterpreted-function encoding", "abstract group model stubs/ideal_ed25519.c",
            "RFC 8032 data flow transcribed in harness/C06/ed25519.c"]
 ASSUMPTIONS = ["message length in the enumerated set"]
-OUTSIDE = ["the group law and point decoding themselves (algebra; see C07); scalar arithmetic mod L (sc25519_reduce / muladd) is decided under C07 (E2 limb mode)", "that the cofactored equation is the right one (RFC 8032; trusted)",
+# the arithmetic the drivers rest on (ed25519_ref10.c is one of this property's anchors): the same E2 obligations as C07
+E2_LIMB = ["sc25519", "edwards-group-ops", "ed25519-scalarmult-alg", "fe25519-51"]
+LEVEL_TEXT += (" Arithmetic (E2 irsym, shared with C07): sc25519_reduce / sc25519_muladd == integer arithmetic mod L for all inputs (limb mode), the Edwards group "
+               "operations == the addition law (ring mode), ge25519_scalarmult_base == a*B with the base table checked exhaustively (multiples mode), field kernels (limb mode); "
+               "sc25519_is_canonical / ge25519_is_canonical on all 256 bits (CBMC).")
+OUTSIDE = ["point decoding (square-root chain) and ge25519_double_scalarmult_vartime (scalar-dependent control flow); the composition of the decided arithmetic layers with the drivers is on paper", "that the cofactored equation is the right one (RFC 8032; trusted)",
            "pk_to_curve25519 birational map (field inversion chain)"]
 UNITS = ["crypto_sign/ed25519/ref10/keypair.c", "crypto_sign/ed25519/ref10/sign.c", "crypto_sign/ed25519/ref10/open.c",
          "crypto_sign/ed25519/sign_ed25519.c", "sodium/utils.c", "crypto_verify/verify.c"]
